@@ -566,7 +566,28 @@ fn grammar_entropy(rng: &mut Rng) -> (Vec<u8>, String) {
     (e, desc.join("; "))
 }
 
+/// Every run also feeds four of the 256 single-byte-repeated patterns (so that 64 runs cover all of
+/// them) at three lengths, to all three generators.
+fn pattern_steps(run: u64) -> Vec<Step> {
+    let mut steps = Vec::new();
+    for j in 0..4u64 {
+        let b = ((run * 4 + j) % 256) as u8;
+        for n in [5usize, 40, 300] {
+            for generator in 0..3u8 {
+                steps.push(Step::Generate(GenSpec { generator, take_rest: (n + generator as usize) % 2 == 0, entropy: vec![b; n], desc: format!("{} bytes of 0x{:02x}", n, b) }));
+            }
+        }
+    }
+    steps
+}
+
 pub fn gen(seed: u64, run: u64, tier: &str) -> Vec<Step> {
+    let mut steps = gen_main(seed, run, tier);
+    steps.extend(pattern_steps(run));
+    steps
+}
+
+fn gen_main(seed: u64, run: u64, tier: &str) -> Vec<Step> {
     let mut rng = Rng::new(seed, run, 19);
     let kind = run % 7;
     if kind >= 5 {
